@@ -344,8 +344,12 @@ class Coll:
 class Arr:
     """An array built by indexed writes inside loops over symbolic sequences: base value + guarded writes (an array comprehension)."""
 
-    def __init__(self, dims, base):
-        self.dims, self.base, self.writes = dims, base, []
+    def __init__(self, dims, base, name=None):
+        self.dims, self.base, self.writes, self.name = dims, base, [], name
+
+    def ident(self):
+        """Identity of the array as a container (independent of the writes recorded so far)."""
+        return ("arrid", self.name if self.name is not None else (tuple(vkey(d) for d in self.dims), vkey(self.base)))
 
     def key(self):
         return ("arr", tuple(vkey(d) for d in self.dims), vkey(self.base),
@@ -401,7 +405,7 @@ def strip_refs(e):
 
 
 NUMERIC_ADTS = ("dual::dual::Dual", "dual::dual::Dual2")
-ERASE_METHODS = {"clone", "view", "to_owned", "into", "borrow", "as_ref", "to_vec", "into_owned", "view_mut", "cloned", "copied", "deref", "reborrow"}
+ERASE_METHODS = {"clone", "view", "to_owned", "borrow", "as_ref", "to_vec", "into_owned", "view_mut", "cloned", "copied", "deref", "reborrow"}
 F64_UNARY = {"exp": "exp", "ln": "ln", "log": "ln", "sqrt": "sqrt", "trunc": "trunc", "signum": "signum"}
 
 
@@ -688,13 +692,14 @@ class Ev:
                         if isinstance(env_i, Return):
                             out.append((g, env_i))
                             continue
-                        self.path.append(g)
+                        gl = list(g[1]) if isinstance(g, tuple) and g and g[0] == "all" else [g]
+                        self.path.extend(gl)
                         try:
                             out.append((g, self._run_block(e, i + 1, env_i, depth)))
                         except Return as ret:
                             out.append((g, ret))
                         finally:
-                            self.path.pop()
+                            del self.path[len(self.path) - len(gl):]
                     if all(isinstance(v, Return) for _, v in out):
                         if len(out) == 1:
                             raise out[0][1]
@@ -714,16 +719,93 @@ class Ev:
         return Sym("unit")
 
     # ---- executing statements for their effect on arrays (array comprehension semantics)
-    def stmt_arms(self, x, env, depth):
-        """[(guard, env after the arm)] for a statement-level if/match outside loops (path split)."""
-        out = []
-        if x["k"] == "match":
+    def fork_exec(self, x, env, depth):
+        """Execute statement/expression `x` for effect outside loops, splitting paths at if/match.
+        Returns [(guards tuple, env or Return)]; `env` objects are forks (the caller's env is not modified when a split occurs)."""
+        k = x.get("k")
+        if k == "block":
+            outs = [((), env)]
+            items = [("stmt", s_) for s_ in x["stmts"]] + ([("tail", x["e"])] if "e" in x else [])
+            for kind, s_ in items:
+                nxt = []
+                for g, en in outs:
+                    if isinstance(en, Return):
+                        nxt.append((g, en))
+                        continue
+                    self.path.extend(g)
+                    try:
+                        if kind == "stmt" and s_["k"] == "let":
+                            if "init" in s_:
+                                self.bind(s_["pat"], self.collapse(self.eval(s_["init"], en, depth)), en)
+                            nxt.append((g, en))
+                        elif kind == "stmt" and s_["k"] == "item":
+                            nxt.append((g, en))
+                        else:
+                            inner = s_["e"] if kind == "stmt" else s_
+                            if kind == "tail" and inner.get("k") not in ("if", "match", "block", "for", "while", "loop", "ret"):
+                                en["@ret"] = self.eval(inner, en, depth)
+                                nxt.append((g, en))
+                            else:
+                                for g2, en2 in self.fork_exec(inner, en, depth):
+                                    nxt.append((g + g2, en2))
+                    except Return as ret:
+                        if getattr(ret, "env", None) is None:
+                            ret.env = en
+                        nxt.append((g, ret))
+                    finally:
+                        del self.path[len(self.path) - len(g):]
+                outs = nxt
+            return outs
+        if k == "if" and not self.loops:
+            c = x["c"]
+            env2 = fork_env(env)
+            if c.get("k") == "letx":
+                v = self.eval(c["init"], env, depth)
+                r = self.match_pat(c["pat"], v, env2)
+                if r is True:
+                    return self.fork_exec(x["t"], env2, depth)
+                if r is False:
+                    return self.fork_exec(x["e"], fork_env(env), depth) if "e" in x else [((), env)]
+                g = ("arm", pat_key(c["pat"]), vkey(v))
+                env2 = fork_env(env)
+                self.bind_pat_loose(c["pat"], v, env2)
+            else:
+                g = ("if", vkey(self.eval(c, env, depth)))
+            d = self.decided(g)
+            out = []
+            if d is not False:
+                self.path.append(g)
+                try:
+                    out += [((g,) + g2, e2) for g2, e2 in self.fork_exec(x["t"], env2, depth)]
+                except Return as ret:
+                    out.append(((g,), ret))
+                finally:
+                    self.path.pop()
+            if d is not True:
+                ng = ("not", g)
+                self.path.append(ng)
+                try:
+                    if "e" in x:
+                        out += [((ng,) + g2, e2) for g2, e2 in self.fork_exec(x["e"], fork_env(env), depth)]
+                    else:
+                        out.append(((ng,), fork_env(env)))
+                except Return as ret:
+                    out.append(((ng,), ret))
+                finally:
+                    self.path.pop()
+            if d is not None:
+                out = [(g_[1:], e_) for g_, e_ in out]
+            return out
+        if k == "match" and not self.loops:
             scrut = self.eval(x["e"], env, depth)
+            out = []
             for a in x["arms"]:
                 env2 = fork_env(env)
                 r = self.match_pat(a["pat"], scrut, env2)
                 if r is False:
                     continue
+                if r is True and not out:
+                    return self.fork_exec(a["body"], env2, depth)
                 if r is None:
                     env2 = fork_env(env)
                     try:
@@ -733,45 +815,46 @@ class Ev:
                 g = ("arm", pat_key(a["pat"]), vkey(scrut))
                 self.path.append(g)
                 try:
-                    self.exec_stmt(a["body"], env2, depth)
-                    out.append((g, env2))
+                    out += [((g,) + g2, e2) for g2, e2 in self.fork_exec(a["body"], env2, depth)]
                 except Return as ret:
-                    out.append((g, ret))
+                    out.append(((g,), ret))
                 finally:
                     self.path.pop()
                 if r is True:
-                    return [out[-1]] if len(out) == 1 else out
+                    break
             return out
-        c = x["c"]
-        if c.get("k") == "letx":
-            v = self.eval(c["init"], env, depth)
-            env2 = fork_env(env)
-            g = ("arm", pat_key(c["pat"]), vkey(v))
-            self.bind_pat_loose(c["pat"], v, env2)
-        else:
-            g = ("if", vkey(self.eval(c, env, depth)))
-            env2 = fork_env(env)
-        decided = self.decided(g)
-        if decided is not False:
-            self.path.append(g)
-            try:
-                self.exec_stmt(x["t"], env2, depth)
-                out.append((g, env2))
-            except Return as ret:
-                out.append((g, ret))
-            finally:
-                self.path.pop()
-        if decided is not True:
-            env3 = fork_env(env)
-            self.path.append(("not", g))
-            try:
-                if "e" in x:
-                    self.exec_stmt(x["e"], env3, depth)
-                out.append((("not", g), env3))
-            except Return as ret:
-                out.append((("not", g), ret))
-            finally:
-                self.path.pop()
+        try:
+            self.exec_stmt(x, env, depth)
+            return [((), env)]
+        except Return as ret:
+            if getattr(ret, "env", None) is None:
+                ret.env = env
+            return [((), ret)]
+
+    def explore(self, name, args):
+        """All paths of a function executed for effect: [{"guards", "ret", "params": [final values of the parameters]}]."""
+        r = self.facts.fn(name)
+        if r is None:
+            raise Unsupported("no body for " + name)
+        env = {}
+        for p, a in zip(r["params"], args):
+            self.bind(p, a, env)
+        ids = [p.get("id") for p in r["params"]]
+        self.guards, self.loops, self.path = [], [], []
+        out = []
+        for g, en in self.fork_exec(r["body"], env, 1):
+            if isinstance(en, Return):
+                fin, ret = getattr(en, "env", None) or {}, en.value
+            else:
+                fin, ret = en, en.get("@ret", Sym("unit"))
+            out.append({"guards": g, "ret": ret, "params": [fin.get(i) for i in ids]})
+        return out
+
+    def stmt_arms(self, x, env, depth):
+        """[(guard, env after the arm | Return)] for a statement-level if/match outside loops (path split)."""
+        out = []
+        for g, en in self.fork_exec(x, env, depth):
+            out.append((g[0] if len(g) == 1 else ("all", g), en))
         return out
 
     def decided(self, g):
@@ -858,6 +941,9 @@ class Ev:
                 while base.get("k") in ("ref",) or (base.get("k") == "un" and base.get("op") == "Deref"):
                     base = base["e"]
                 arr = self.eval(base, env, depth)
+                if isinstance(arr, Sym) and base.get("k") == "path" and base.get("res") == "local":
+                    arr = Arr([], arr)            # writes into an existing (opaque) container: base = its previous content
+                    env[base["id"]] = arr
                 if isinstance(arr, Arr):
                     iv = self.eval(lhs["i"], env, depth)
                     idx = list(iv.items) if isinstance(iv, Tup) else [iv]
@@ -872,6 +958,9 @@ class Ev:
             return
         if k == "mcall" and x["m"] == "clone_from" and x["recv"].get("k") == "path" and x["recv"].get("res") == "local":
             env[x["recv"]["id"]] = self.eval(x["args"][0], env, depth)
+            return
+        if k == "mcall" and x["m"] == "clone_from" and strip_refs(x["recv"]).get("k") == "field":
+            self.assign(strip_refs(x["recv"]), self.eval(x["args"][0], env, depth), env)
             return
         if k == "while":
             return self.exec_while(x, env, depth)
@@ -1056,13 +1145,26 @@ class Ev:
         raise Return(self.eval(e["e"], env, depth) if "e" in e else Sym("unit"))
 
     def ev_try(self, e, env, depth):
-        return self.eval(e["e"], env, depth)
+        v = self.eval(e["e"], env, depth)
+        if isinstance(v, Sym) and v.tag[:2] == ("ctor", "Ok") and len(v.tag) == 3:
+            return v.tag[2]
+        if isinstance(v, Sym) and v.tag[:2] == ("ctor", "Err"):
+            raise Return(v)
+        return v      # opaque Result: the value continues as its Ok payload; the Err edge of `?` is decided on MIR where a rule needs it
 
     def ev_index(self, e, env, depth):
         b = self.eval(e["e"], env, depth)
         i = self.eval(e["i"], env, depth)
+        if isinstance(b, Arr):
+            ik = [vkey(x) for x in (i.items if isinstance(i, Tup) else [i])]
+            for w in reversed(b.writes):
+                if [vkey(x) for x in w["idx"]] == ik and set(w["guards"]) <= set(self.guards) and w["loops"] == tuple(self.loops):
+                    return w["val"]          # read-through of an element written earlier on this path
+            return Poly.atom(("elem", b.ident(), tuple(ik)))
         if isinstance(b, Tup) and isinstance(i, Poly) and i.const_value() is not None and 0 <= i.const_value() < len(b.items):
             return b.items[int(i.const_value())]
+        if isinstance(b, Coll) and isinstance(i, Poly) and i.order == 0:
+            return b.seq.fn(i)              # element i of a collected sequence is the sequence's element function at i
         if isinstance(i, Poly) and i.order == 0:
             return Poly.atom(("call", "index", (vkey(b), i.key())))
         return Poly.atom(("call", "index", (vkey(b), vkey(i))))
@@ -1136,6 +1238,8 @@ class Ev:
             if last == "zeros":
                 return Arr(shape, Poly.const(0))
             return Poly.tensor(("ones", tuple(vkey(x) for x in shape)), len(shape))
+        if last == "eye" and "ndarray" in d and len(args) == 1:
+            return Arr([args[0], args[0]], Sym("eye"))
         if d.endswith("ndarray::Axis") or last == "Axis":
             return Sym("axis", vkey(args[0]))
         if self.facts.fn(d) is not None:
@@ -1193,6 +1297,27 @@ class Ev:
                 finally:
                     self.loops.pop()
                 return Sym("forall" if m == "all" else "exists", vkey(recv.src), vkey(body))
+            if m == "fold" and len(args) == 2 and isinstance(args[1], Clo):
+                f = args[1]
+                env2 = dict(f.env)
+                self.bind(f.params[0], Sym("acc") if not isinstance(args[0], Poly) else Poly.atom("acc"), env2)
+                self.bind(f.params[1], recv.fn(Poly.atom("q%d" % len(self.loops))), env2)
+                self.loops.append(("q", vkey(recv.src)))
+                try:
+                    body = self.collapse(self.eval(f.body, env2, depth))
+                finally:
+                    self.loops.pop()
+                tag = ("fold", vkey(recv.src), vkey(args[0]), vkey(body))
+                return Poly.atom(tag) if isinstance(args[0], Poly) else Sym(*tag)
+            if m == "filter" and len(args) == 1 and isinstance(args[0], Clo):
+                f = args[0]
+                env2 = dict(f.env)
+                self.bind(f.params[0], recv.fn(Poly.atom("f")), env2)
+                pred = self.collapse(self.eval(f.body, env2, depth))
+                nsrc = Sym("filter", vkey(recv.src), vkey(pred))
+                return Seq(nsrc, lambda idx, nsrc=nsrc: Sym("at", vkey(nsrc), idx.key()))
+            if m == "zip" and len(args) == 1 and isinstance(args[0], Rec) and args[0].adt.endswith("RangeFrom"):
+                return Seq(Sym("zipidx", vkey(recv.src)), lambda idx, a=recv.fn: Tup([a(idx), idx + as_poly(args[0].fields["start"])]))
             if m == "zip" and len(args) == 1:
                 o = args[0]
                 if isinstance(o, Coll):
@@ -1201,6 +1326,19 @@ class Ev:
                     return Seq(Sym("zip", vkey(recv.src), vkey(o.src)), lambda idx, a=recv.fn, b=o.fn: Tup([a(idx), b(idx)]))
         if m in ERASE_METHODS and not args:
             return recv
+        if m == "into" and not args:
+            # T: Into<U> is std's blanket impl over From<T> for U: dispatch to the in-crate From impl by (source, target) types
+            tgt = (e.get("ty") or "").replace("&", "")
+            src = recv.adt if isinstance(recv, Rec) else ("f64" if isinstance(recv, Poly) else None)
+            if src is not None and src == tgt:
+                return recv
+            if src is not None:
+                for rr in self.facts.all_fns():
+                    if rr.get("trait_item") == "std::convert::From::from" and rr.get("self_ty") == tgt and rr["sig"][0].replace("&", "") == src:
+                        return self.apply_fn(rr["fn"], [recv], depth)
+            if isinstance(recv, Poly) and tgt in ("f64", "f32") or (isinstance(recv, Poly) and tgt in INT_TYPES):
+                return recv
+            return Sym("into", tgt, vkey(recv))
         if isinstance(recv, Sym) and recv.tag and recv.tag[0] == "ctor" and recv.tag[1] in ("Some", "None", "Ok", "Err"):
             # Option / Result combinators on a known constructor
             if recv.tag[1] in ("Some", "Ok") and m in ("unwrap", "expect", "unwrap_or", "unwrap_or_else", "unwrap_or_default") and len(recv.tag) == 3:
@@ -1279,6 +1417,20 @@ class Ev:
             return recv
         if m in ("partial_cmp",) and len(args) == 1:
             return Sym("partial_cmp", vkey(recv), vkey(args[0]))
+        if isinstance(recv, Seq):
+            # an adapter that is not modelled yields an opaque sequence over the same source
+            nsrc = Sym("m", m, vkey(recv.src), vkey(recv.elem), tuple(vkey(a) for a in args if not isinstance(a, Clo)))
+            if m in ("sum", "count", "max", "min", "last", "next", "fold", "position", "max_by_key", "max_by", "min_by_key", "product", "find"):
+                return nsrc
+            return Seq(nsrc, lambda idx, nsrc=nsrc: Sym("at", vkey(nsrc), idx.key()))
+        if isinstance(recv, Arr):
+            return Sym("m", m, recv.ident(), tuple(vkey(a) for a in args))
+        if isinstance(recv, Sym) and m in ("map_or", "map", "and_then", "is_some_and") and args and isinstance(args[-1], Clo):
+            f = args[-1]
+            env2 = dict(f.env)
+            self.bind(f.params[0], Sym("payload", vkey(recv), 0), env2)
+            body = self.collapse(self.eval(f.body, env2, depth))
+            return Sym("optcase", m, vkey(recv), tuple(vkey(a) for a in args[:-1]), vkey(body))
         if isinstance(recv, Sym):
             # opaque: an unmodelled method of an opaque value stays an opaque value (it can only fail to match an expected form)
             return Sym("m", m, vkey(recv), tuple(vkey(a) for a in args))
@@ -1296,7 +1448,7 @@ def fork_env(env):
     out = {}
     for k, v in env.items():
         if isinstance(v, Arr):
-            a = Arr(v.dims, v.base)
+            a = Arr(v.dims, v.base, v.name)
             a.writes = list(v.writes)
             out[k] = a
         elif isinstance(v, Rec):
